@@ -1,6 +1,8 @@
 package keeper
 
 import (
+	"bytes"
+
 	gogotypes "github.com/gogo/protobuf/types"
 
 	sdk "github.com/cosmos/cosmos-sdk/types"
@@ -65,6 +67,13 @@ func (k Keeper) GetEarnedFees(ctx sdk.Context, provider sdk.AccAddress) (fees sd
 	for ; iterator.Valid(); iterator.Next() {
 		var balance sdk.Coin
 		k.cdc.MustUnmarshalBinaryBare(iterator.Value(), &balance)
+
+		// the records are keyed provider||denom: the prefix also matches the records of an address
+		// that begins with this one (addresses need not have the same length)
+		if !bytes.Equal(iterator.Key(), types.GetEarnedFeesKey(provider, balance.Denom)) {
+			continue
+		}
+
 		fees = fees.Add(balance)
 	}
 
@@ -77,6 +86,14 @@ func (k Keeper) DeleteEarnedFees(ctx sdk.Context, provider sdk.AccAddress) {
 	iterator := sdk.KVStorePrefixIterator(store, types.GetEarnedFeesSubspace(provider))
 
 	for ; iterator.Valid(); iterator.Next() {
+		var balance sdk.Coin
+		k.cdc.MustUnmarshalBinaryBare(iterator.Value(), &balance)
+
+		// only the records of this very address (see GetEarnedFees)
+		if !bytes.Equal(iterator.Key(), types.GetEarnedFeesKey(provider, balance.Denom)) {
+			continue
+		}
+
 		store.Delete(iterator.Key())
 	}
 }
